@@ -20,6 +20,7 @@ RULE = (
     "trees up to 25 nodes with random subsets, re-checked after mutations, with iterator objects also consumed in two portions. Non-trivial = at least two of {stop, filter_, maxlevel} actually remove an "
     "otherwise admitted node. Enumerated cases are distinct by construction; generated ones are hashed."
     ' Also: maxlevel 2**63/10**30/True; a trunk of 0.6 x the recursion limit for all five iterators; iterators created before a change.'
+    ' Rounds 13-14: fractional maxlevels under one reading for all five iterators; options assigned after construction.'
 )
 ASSUMPTIONS = [
     "the traversal of a subtree is defined by .children alone: one node class (ShadowMRO) inherits unrelated class attributes named is_leaf/depth/height/size/... from a base listed before NodeMixin, and is iterated like any other",
